@@ -139,7 +139,8 @@ CHECKS = {
              "ASCII), name_safe, section_read_back / headers_read_back (an RFC 5322 reader recovers exactly the stored fields in order and "
              "the body: nothing supplied can add, split, truncate or terminate a field), names_stay_unique, mailbox_header_wf (the same well-formedness "
              "for From / Sender / To / Cc / Bcc / Reply-To under every display name: a model of Mailbox(es)::encode with quoted_string::encode's four "
-             "strategies and the repaired write_unbreakable, Model/MailboxEnc.lean, compared octet for octet with the code), address_list_folded (every line of a header with any number of bare addresses is within 78 "
+             "strategies and the repaired write_unbreakable, Model/MailboxEnc.lean, compared octet for octet with the code), content_disposition_wf "
+             "(the same for Content-Disposition under every file name, Model/Rfc2231Enc.lean), address_list_folded (every line of a header with any number of bare addresses is within 78 "
              "octets: the repaired folding, proved). The other line-length bounds (78 / 998) "
              "are checked on real outputs only (four narrow known findings). Correspondence: names of every length x adversarial texts "
              "(all alignments of 1-4 byte characters, CR/LF/NUL/controls, up to 64 KiB), all ASCII names up to length 2, random "
@@ -165,8 +166,12 @@ CHECKS = {
              "loop of HeaderValueEncoder::format), encoded_word_roundtrip, word_room_le_45, together with C02.value_wf for the folding. "
              "The correspondence check ties the encoder model to HeaderValue::new octet for octet and applies the same reader to every "
              "real encoded value (names of every length, every alignment of 1-4 byte characters against the fold column and the base64 "
-             "groups, space/tab runs, literal encoded-word look-alikes, up to 64 KiB). Display names and RFC 2231 file names are decided "
-             "by readers on real output (mbox / typed ops), not by theorems.",
+             "groups, space/tab runs, literal encoded-word look-alikes, up to 64 KiB). Structured fields (Proofs/Wire.lean): "
+             "display_name_roundtrip (whatever the name and the position on the line, what quoted_string::encode writes - atom, quoted string "
+             "with quoted-pairs, encoded-words - is shown by the structured-field reader as exactly the name), mailbox_header_read_back (a "
+             "whole mailbox list unfolded), file_name_roundtrip / attachment_and_inline_file_names (every file name below 10^20 octets, "
+             "printable or not: the RFC 2231 reader finds exactly the name in the Content-Disposition value; Model/Rfc2231Enc.lean models "
+             "ContentDisposition::with_name and rfc2231::encode and is compared octet for octet with the code, as is Model/MailboxEnc.lean).",
         design_ref="DESIGN.md 5 C12",
         note="Trusted: Lean kernel; axioms propext/Quot.sound/Classical.choice; Spec/Rfc2047Dec.lean as the reading of RFC 2047 / RFC 5322 2.2.3; "
              "the hypothesis that a Rust string has no four UTF-8 continuation octets in a row; model + harness. Structured fields (display "
